@@ -60,7 +60,7 @@ Definition tree_eqb := list_eqb rchild_eqb.
 
 Inductive cdest := CSink (below : bool)      (* a sink whose capacity is below the output length, or a healthy one *)
                  | CPath (existing : bool).  (* a path: a file that exists already, or none *)
-Definition cfault := (list (N * exn) * option (option atom))%type.
+Definition cfault := (list (N * exn) * option (option (N * atom)))%type.
 Definition cevent := (bool * cfault * cdest)%type.     (* write? / fault context / destination *)
 Definition obs := (nat * nat * oskel)%type.            (* exception code, destination flag, root children *)
 
@@ -106,7 +106,7 @@ Fixpoint replay (s : state) (evs : list (cevent * obs)) : bool * state :=
   end.
 
 Definition mkobj (o : N * atom * N * N) : obj := let '(u, i, n, c) := o in Obj u i n c.
-Definition mkmodel (masset : N) (arrs : list (list (N * atom * N * N))) (msc : option atom) : model :=
+Definition mkmodel (masset : N) (arrs : list (list (N * atom * N * N))) (msc : option (N * atom)) : model :=
   Model masset (map (fun p => Lib (fst p) (recreates (fst p)) (map mkobj (snd p))) (combine managed_tags arrs)) msc.
 
 Fixpoint lookup_xml (u : N) (tbl : list (N * xml)) : option xml :=
@@ -124,7 +124,7 @@ Fixpoint unm_ok (uids : list N) (tbl : list (N * xml)) (after : list xml) : bool
 
 (* asset atom, object lists, default scene, root children, history with observations,
    unmanaged children before (by uid) and after (from the written bytes) *)
-Definition case := (N * list (list (N * atom * N * N)) * option atom * oskel *
+Definition case := (N * list (list (N * atom * N * N)) * option (N * atom) * oskel *
                     list (cevent * obs) * list (N * xml) * list xml)%type.
 
 Definition case_ok (c : case) : bool :=
